@@ -373,4 +373,75 @@ theorem Rev.discard_spec (r : Rev) (h : r.inner.WF) (n : Nat) :
   · rintro ⟨⟨h1, h2⟩, hx⟩
     exact ⟨h1, fun hm => hm.elim hx h2⟩
 
+/-! ### `ReverseIdSet` without its preconditions, and its inherited in-place loops -/
+
+/-- `i in ReverseIdSet` for **every** `i`: "not in the wrapped set" — also beyond `limit`. -/
+theorem Rev.contains_exact (r : Rev) (h : r.inner.WF) (i : Nat) :
+    r.contains i = .ok (!decide (i ∈ r.inner.iter)) := by
+  unfold Rev.contains
+  rw [Inner.contains_spec _ h]
+  rfl
+
+/-- `len(ReverseIdSet)` for every wrapped set: `limit - len(idset)` as a Python int. -/
+theorem Rev.len_exact (r : Rev) (h : r.inner.WF) :
+    r.len = .ok ((r.limit : Int) - (r.inner.iter.length : Int)) := by
+  unfold Rev.len
+  rw [Inner.len_spec _ h]
+  rfl
+
+theorem invert_erase_ge (limit n : Nat) (s : List Nat) (hn : limit ≤ n) :
+    WM.Spec.IdSet.invert limit (WM.Spec.IdSet.erase n s) = WM.Spec.IdSet.invert limit s := by
+  apply WM.Spec.IdSet.sorted_ext WM.Spec.IdSet.sorted_invert WM.Spec.IdSet.sorted_invert
+  intro x
+  rw [WM.Spec.IdSet.mem_invert, WM.Spec.IdSet.mem_invert, WM.Spec.IdSet.mem_erase]
+  constructor
+  · rintro ⟨h1, h2⟩
+    exact ⟨h1, fun hm => h2 ⟨hm, by omega⟩⟩
+  · rintro ⟨h1, h2⟩
+    exact ⟨h1, fun hm => h2 hm.1⟩
+
+/-- `add(n)` with `n ≥ limit` only removes `n` from the wrapped set: iteration does not change. -/
+theorem Rev.add_out_of_range (r : Rev) (h : r.inner.WF) (n : Nat) (hn : r.limit ≤ n) :
+    ∃ r', r.add n = .ok r' ∧ r'.inner.WF ∧ r'.limit = r.limit ∧ r'.iter = r.iter ∧
+      r'.inner.iter = WM.Spec.IdSet.erase n r.inner.iter := by
+  rcases Inner.discard_spec r.inner h n with ⟨s', hs', hwf, hiter⟩
+  refine ⟨{ r with inner := s' }, by simp [Rev.add, hs', Except.map], hwf, rfl, ?_, hiter⟩
+  rw [Rev.iter_spec _ hwf, Rev.iter_spec r h]
+  simp only
+  rw [hiter]
+  exact invert_erase_ge _ _ _ hn
+
+/-- `DocIdSet.update` on a `ReverseIdSet` (ids below `limit`): union. -/
+theorem Rev.update_items : ∀ (l : List Nat) (r : Rev), r.inner.WF → (∀ x ∈ l, x < r.limit) →
+    ∃ r', foldE Rev.add r l = .ok r' ∧ r'.inner.WF ∧ r'.limit = r.limit ∧
+      ∀ x, x ∈ r'.iter ↔ x ∈ r.iter ∨ x ∈ l
+  | [], r, h, _ => ⟨r, rfl, h, rfl, by simp⟩
+  | a :: t, r, h, hl => by
+    rcases Rev.add_spec r h a (hl a (by simp)) with ⟨r1, h1, hwf1, hlim1, hit1⟩
+    rcases Rev.update_items t r1 hwf1 (fun x hx => by rw [hlim1]; exact hl x (List.mem_cons_of_mem _ hx))
+      with ⟨r2, h2, hwf2, hlim2, hit2⟩
+    refine ⟨r2, by simp only [foldE, h1, h2], hwf2, by rw [hlim2, hlim1], ?_⟩
+    intro x
+    rw [hit2, hit1, WM.Spec.IdSet.mem_insert, List.mem_cons]
+    constructor
+    · rintro ((h | h) | h) <;> simp [h]
+    · rintro (h | h | h) <;> simp [h]
+
+/-- `DocIdSet.difference_update` on a `ReverseIdSet`: difference. -/
+theorem Rev.differenceUpdate_items : ∀ (l : List Nat) (r : Rev), r.inner.WF →
+    ∃ r', foldE Rev.discard r l = .ok r' ∧ r'.inner.WF ∧ r'.limit = r.limit ∧
+      ∀ x, x ∈ r'.iter ↔ x ∈ r.iter ∧ x ∉ l
+  | [], r, h => ⟨r, rfl, h, rfl, by simp⟩
+  | a :: t, r, h => by
+    rcases Rev.discard_spec r h a with ⟨r1, h1, hwf1, hlim1, hit1⟩
+    rcases Rev.differenceUpdate_items t r1 hwf1 with ⟨r2, h2, hwf2, hlim2, hit2⟩
+    refine ⟨r2, by simp only [foldE, h1, h2], hwf2, by rw [hlim2, hlim1], ?_⟩
+    intro x
+    rw [hit2, hit1, WM.Spec.IdSet.mem_erase, List.mem_cons]
+    constructor
+    · rintro ⟨⟨h3, h4⟩, h5⟩
+      exact ⟨h3, fun hc => hc.elim h4 h5⟩
+    · rintro ⟨h3, h4⟩
+      exact ⟨⟨h3, fun hc => h4 (Or.inl hc)⟩, fun hc => h4 (Or.inr hc)⟩
+
 end WM.IdSets
